@@ -275,6 +275,55 @@ func (a *AttributeExpr) Validate(ctx string, parent eval.Expression) *eval.Valid
 	return verr
 }
 
+// extendsItself returns true if the definition of the attribute is not
+// finite: following the types it extends (Extend), their own bases and the
+// attributes they define inline leads back to an attribute already visited on
+// the way. Merging the bases of such an attribute (Finalize) would make it a
+// child of itself.
+func (a *AttributeExpr) extendsItself() bool {
+	const (
+		visiting = iota + 1
+		done
+	)
+	state := make(map[*AttributeExpr]int)
+	var cyclic func(att *AttributeExpr) bool
+	cyclic = func(att *AttributeExpr) bool {
+		if att == nil || state[att] == done {
+			return false
+		}
+		if state[att] == visiting {
+			return true
+		}
+		state[att] = visiting
+		defer func() { state[att] = done }()
+		for _, b := range att.Bases {
+			if ut, ok := b.(UserType); ok && cyclic(ut.Attribute()) {
+				return true
+			}
+		}
+		switch t := att.Type.(type) {
+		case *Object:
+			for _, nat := range *t {
+				if cyclic(nat.Attribute) {
+					return true
+				}
+			}
+		case *Array:
+			return cyclic(t.ElemType)
+		case *Map:
+			return cyclic(t.KeyType) || cyclic(t.ElemType)
+		case *Union:
+			for _, nat := range t.Values {
+				if cyclic(nat.Attribute) {
+					return true
+				}
+			}
+		}
+		return false
+	}
+	return cyclic(a)
+}
+
 func (a *AttributeExpr) validatePkgPath(pkgPath string, t DataType) *eval.ValidationErrors {
 	verr := new(eval.ValidationErrors)
 	if ar := AsArray(t); ar != nil {
